@@ -14,6 +14,8 @@ from harness.common import Check, Failure, must, must_raise
 SPECS = [
     {'conv': 'cf1d', 'ny': 12, 'nx': 25}, {'conv': 'cf1d', 'ny': 3, 'nx': 4, 'bounds': 'vars'},
     {'conv': 'cf2d', 'ny': 5, 'nx': 6, 'bounds': 'vars', 'holes': [[0, 0], [2, 2], [2, 3]]}, {'conv': 'cf2d', 'ny': 6, 'nx': 5, 'radial': True},
+    # corners made from the centres; missing centres next to a border cell and at the opposite end of its row / column (nothing wraps around)
+    {'conv': 'cf2d', 'ny': 5, 'nx': 6, 'holes': [[2, 1], [2, 5]]}, {'conv': 'cf2d', 'ny': 5, 'nx': 6, 'holes': [[1, 3], [4, 3]]},
     {'conv': 'shoc_simple', 'ny': 4, 'nx': 5, 'bounds': 'vars', 'holes': [[1, 1]]},
     {'conv': 'shoc_standard', 'ny': 5, 'nx': 6, 'node_holes': [[0, 0], [3, 3]]},
     {'conv': 'ugrid', 'ny': 4, 'nx': 5, 'split': [[0, 0], [2, 2]], 'merge': [[3, 0]]},
